@@ -481,6 +481,10 @@ impl Controller for Bbr {
         self.min_cwnd = calculate_min_window(self.current_mtu);
         self.init_cwnd = self.config.initial_window.max(self.min_cwnd);
         self.cwnd = self.cwnd.max(self.min_cwnd);
+        // A recovery window in force obeys the new minimum as well (zero means it is not set up yet)
+        if self.recovery_window != 0 {
+            self.recovery_window = self.recovery_window.max(self.min_cwnd);
+        }
     }
 
     fn window(&self) -> u64 {
